@@ -4,6 +4,7 @@ import (
 	"fmt"
 	"math/rand"
 	"os"
+	"strings"
 	"sync"
 	"time"
 
@@ -34,6 +35,7 @@ type c05Case struct {
 	Background bool   `json:"background"` // background compaction thread with a 1ms ticker
 	Procs      int    `json:"procs"`
 	ReadHeavy  bool   `json:"read_heavy,omitempty"` // client 0 writes, all others only read the same hot keys
+	BigVals    int    `json:"big_vals,omitempty"`   // values are an 8-byte token repeated this many times (the history records the token)
 	// observations
 	History   []lOp  `json:"history,omitempty"`
 	NOps      int    `json:"n_ops"`
@@ -128,6 +130,9 @@ func (c *c05Case) Exec() {
 			default:
 			}
 			time.Sleep(time.Duration(r.Intn(300)) * time.Microsecond)
+			if c.BigVals > 0 && r.Intn(20) != 0 {
+				continue // mostly leave the big values in the write memstore
+			}
 			if r.Intn(2) == 0 {
 				if db.VerifForceRotation() == nil {
 					c.Rotations++
@@ -149,14 +154,18 @@ func (c *c05Case) Exec() {
 			}
 			r := rand.New(rand.NewSource(c.Seed*1000 + int64(cl)))
 			n := c.OpsPer
-			if c.ReadHeavy && cl > 0 {
+			writers := 1
+			if c.BigVals > 0 {
+				writers = 3 // several writers queue on the write lock back to back, while readers still copy a value out
+			}
+			if c.ReadHeavy && cl >= writers {
 				n = 8 * c.OpsPer
 			}
 			for i := 0; i < n; i++ {
 				op := lOp{Client: cl, Key: fmt.Sprintf("k%d", r.Intn(c.Keys))}
 				x := r.Intn(10)
 				if c.ReadHeavy {
-					if cl > 0 {
+					if cl >= writers {
 						x = 0 // readers
 						select {
 						case <-writerDone:
@@ -164,7 +173,10 @@ func (c *c05Case) Exec() {
 						default:
 						}
 					} else if x < 5 {
-						x = 5 + x%5 // the writer
+						x = 5 + x%5 // a writer
+					}
+					if c.BigVals > 0 && cl < writers {
+						x = 5 // puts only: equal-length overwrites
 					}
 				}
 				switch {
@@ -175,14 +187,27 @@ func (c *c05Case) Exec() {
 					op.Ret = int64(time.Since(t0))
 					if err == nil {
 						op.Val, op.Found = v, true
+						if c.BigVals > 0 {
+							// a value is one token repeated: anything else was never written by anybody
+							if len(v) != 8*c.BigVals || strings.Count(v, v[:8]) != c.BigVals {
+								op.Val = "TORN:" + v[:8] + ".." + v[len(v)-8:]
+							} else {
+								op.Val = v[:8]
+							}
+						}
 					} else if dbErrName(err) != "NotFound" {
 						op.Err = err.Error()
 					}
 				case x < 8:
 					op.Kind = 1
 					op.Val = fmt.Sprintf("c%d-%d", cl, i)
+					payload := op.Val
+					if c.BigVals > 0 {
+						op.Val = fmt.Sprintf("c%d-%05d", cl, i%100000)[:8]
+						payload = strings.Repeat(op.Val, c.BigVals)
+					}
 					op.Call = int64(time.Since(t0))
-					err := db.Put(op.Key, op.Val)
+					err := db.Put(op.Key, payload)
 					op.Ret = int64(time.Since(t0))
 					if err != nil {
 						op.Err = err.Error()
@@ -262,6 +287,11 @@ func genC05(r *rand.Rand, tier string) []Case {
 			// one writer whose every Put rotates the memstore, readers spinning on the keys it has just written:
 			// a Get overlaps the completion of a flush all the time
 			c.ReadHeavy, c.Memstore, c.Keys, c.OpsPer = true, 1, 2+r.Intn(3), 150+r.Intn(100)
+		}
+		if i%5 == 3 {
+			// big values that stay in the write memstore: an overwrite must not be visible in a value that a Get
+			// is still copying out
+			c.ReadHeavy, c.Memstore, c.Keys, c.OpsPer, c.BigVals, c.Background, c.Clients = true, 1<<30, 2, 100+r.Intn(50), 1<<15, false, 6+r.Intn(2)
 		}
 		cases = append(cases, c)
 	}
